@@ -208,6 +208,42 @@ theorem C15_false_displaced_copy {α : Type} (R : α → α → Bool) (l1 l2 l3 
   rw [matchMembers_symm R R _ _ (fun a _ b _ => hsymm a b)]
   exact h2
 
+/-- **Perturbation clause with repeated members**: `h` is `g` with every coordinate moved by less
+than `tol`, members reordered, closed rings restarted (`specSim`), distinct members separated
+(`blockSeparated`; copies allowed) ⇒ `g.Similar(h, tol)` is true — and so is `h.Similar(g, tol)`. -/
+theorem C15_perturb_blocks (g h : RGeom) (tol : Rat) (hs : Spec.blockSeparated g tol h = true)
+    (hp : Spec.specSim g tol h = true) : sim g tol h = true ∧ sim h tol g = true := by
+  have := C15_model_eq_spec_blocks g h tol hs
+  rw [hp] at this
+  exact ⟨this, by rw [← C15_symm_all]; exact this⟩
+
+/-- **Every false clause with repeated members**: distinct members separated and no type-preserving
+one-to-one pairing / rotation / < tol agreement exists ⇒ false in both call directions (this needs
+no separation at all: `C15_false_of_spec`). -/
+theorem C15_false_blocks (g h : RGeom) (tol : Rat) (hn : Spec.specSim g tol h = false) :
+    sim g tol h = false ∧ sim h tol g = false := by
+  have := C15_false_of_spec g h tol hn
+  exact ⟨this, by rw [← C15_symm_all]; exact this⟩
+
+/-- `sepRel` (no member has two candidates) is the special case of the block structure in which no
+two members are interchangeable: the hypothesis of `C15_greedy_iff_perfect` implies the (Prop form
+of the) hypothesis of `C15_greedy_iff_perfect_blocks`. -/
+theorem C15_sepRel_block {β : Type} (ps : List (β → Bool)) (ys : List β)
+    (h : Spec.sepRel ps ys = true) : BlockP ps ys := by
+  intro p hp q hq y hy z hz hpy hqy hqz
+  have hs := ((sepRel_iff ps ys).1 h).1 q hq
+  by_cases hyz : y = z
+  · subst hyz; exact hpy
+  · exfalso
+    obtain ⟨l1, l2, rfl⟩ := List.append_of_mem hy
+    have hz' : z ∈ l1 ++ l2 := by
+      simp at hz ⊢
+      rcases hz with h | h | h
+      · exact Or.inl h
+      · exact absurd h.symm hyz
+      · exact Or.inr h
+    have := countP_two q l1 l2 y z hqy hqz hz'
+    omega
 /-! non-vacuity: a multi-line-string holding the same line twice, against itself with one copy
 displaced / permuted -/
 section Examples
